@@ -1783,8 +1783,13 @@ class ContentFile(File):
 
     def _calc_hash(self) -> str:
         # Use filesystem.open() to avoid triggering a recursive hash update.
-        with self.filesystem.open(self.path, mode="rb") as infile:
-            content_hash = hash_stream(infile)
+        try:
+            with self.filesystem.open(self.path, mode="rb") as infile:
+                content_hash = hash_stream(infile)
+        except FileNotFoundError:
+            # Like File (size=-1), a missing file has a deterministic hash instead of
+            # raising, so that a deleted output invalidates the cache rather than failing.
+            content_hash = ""
         return hash_struct([self.type_basename, self.path, content_hash])
 
 
